@@ -30,3 +30,14 @@ package extgrpc
 //@   props C05 C01 C11
 //@   requires cause != nil
 //@   ensures typeis(payload, *EncodedGrpcCode) ==> typeis(result, *withGrpcCode) && result.(*withGrpcCode).cause == cause && result.(*withGrpcCode).code == payload.(*EncodedGrpcCode).Code
+
+//@ func GetGrpcCode$1
+//@   props C07 C11 C20
+//@   ensures result1 == typeis(err, *withGrpcCode)
+//@   ensures result1 ==> typeis(result0, codes.Code) && result0.(codes.Code) == err.(*withGrpcCode).code
+
+//@ func GetGrpcCode
+//@   props C07 C11 C20
+//@   ensures err == nil ==> result == codes.OK
+//@   ensures err != nil && !ifOk(err, closure("extgrpc.GetGrpcCode$1")) ==> result == codes.Unknown
+//@   ensures err != nil && ifOk(err, closure("extgrpc.GetGrpcCode$1")) ==> typeis(ifVal(err, closure("extgrpc.GetGrpcCode$1")), codes.Code) && result == ifVal(err, closure("extgrpc.GetGrpcCode$1")).(codes.Code)
